@@ -142,7 +142,54 @@ fn static_verdict(cap: usize, a: &[usize], b: &[usize]) -> &'static str {
     }
 }
 
+/// `select!` fairness accounting over a recorded schedule: at every select point of the Sync state
+/// where both arms were ready (something to send and a message waiting), which arm ran?
+fn select_choices(cap_batches: (&[usize], &[usize]), sched: &[String]) -> (u64, u64) {
+    let totals = [2 + sync_total(cap_batches.0), 2 + sync_total(cap_batches.1)];
+    let bounds = |b: &[usize]| -> Vec<usize> {
+        let mut v = vec![2];
+        let mut acc = 2;
+        for (i, n) in b.iter().enumerate() {
+            acc += n;
+            if i + 1 < b.len() {
+                v.push(acc);
+            }
+        }
+        v.push(2 + sync_total(b));
+        v
+    };
+    let bd = [bounds(cap_batches.0), bounds(cap_batches.1)];
+    let (mut s, mut r, mut w) = ([0usize; 2], [0usize; 2], [false; 2]);
+    let (mut both, mut recv_chosen) = (0u64, 0u64);
+    for ev in sched {
+        let x = if ev.starts_with('A') { 0 } else { 1 };
+        let y = 1 - x;
+        let kind = ev.chars().nth(1).unwrap();
+        if kind == 'e' || kind == 'r' {
+            let at_select = s[x] >= 2 && r[x] >= 2 && !w[x] && bd[x].contains(&s[x]);
+            let send_ready = s[x] < totals[x];
+            let recv_ready = s[y] > r[x] && r[x] < totals[y];
+            if at_select && send_ready && recv_ready {
+                both += 1;
+                if kind == 'r' {
+                    recv_chosen += 1;
+                }
+            }
+        }
+        match kind {
+            'e' => {
+                s[x] += 1;
+                w[x] = true;
+            }
+            'f' => w[x] = false,
+            _ => r[x] += 1,
+        }
+    }
+    (both, recv_chosen)
+}
+
 struct Outcome {
+    sched: Vec<String>,
     request: String,
     answer: String,
     done: [bool; 2],
@@ -220,15 +267,28 @@ fn run_config(uni: &Arc<Universe>, cfg: &Config) -> Outcome {
         side(1, &enq_b, &wait_b, &rec_b),
         static_verdict(cfg.cap, &ba, &bb)
     );
-    Outcome { request, answer, done: d, waiting: [*wait_a.borrow(), *wait_b.borrow()], enq: [*enq_a.borrow(), *enq_b.borrow()], results_ok: ok }
+    Outcome { sched: sched.borrow().clone(), request, answer, done: d, waiting: [*wait_a.borrow(), *wait_b.borrow()], enq: [*enq_a.borrow(), *enq_b.borrow()], results_ok: ok }
 }
+
+static WATCHDOG: std::sync::OnceLock<Watchdog> = std::sync::OnceLock::new();
+
+static FAIR: std::sync::Mutex<(u64, u64)> = std::sync::Mutex::new((0, 0));
 
 fn emit(out: &mut Out, uni: &Arc<Universe>, cfg: &Config) {
     let (ba, bb) = cfg.batches();
+    if let Some(w) = WATCHDOG.get() {
+        w.begin(&format!("{} c={} A={} B={} | (no answer: a session loops without reaching an await point)", cfg.id(), cfg.cap, btok(&ba), btok(&bb)));
+    }
     let o = run_config(uni, cfg);
     // nt = both sides sending more than the capacity, or capacity 0
     let nt = cfg.cap == 0 || (sync_total(&ba) > cfg.cap && sync_total(&bb) > cfg.cap);
     let n = out.case(&o.request, &o.answer, nt);
+    {
+        let (both, recv) = select_choices((&ba, &bb), &o.sched);
+        let mut f = FAIR.lock().unwrap();
+        f.0 += both;
+        f.1 += recv;
+    }
     out.count(&format!("cap={}", cfg.cap));
     out.count(&format!("static={}", static_verdict(cfg.cap, &ba, &bb)));
     out.count(&format!("batches={}+{}", ba.len(), bb.len()));
@@ -298,6 +358,7 @@ fn gen_config(rng: &mut Rng, caps: &[usize]) -> Config {
 fn main() {
     let args = Args::parse();
     let mut out = Out::new(&args.out);
+    let _ = WATCHDOG.set(Watchdog::start(args.out.clone(), std::time::Duration::from_secs(30), "session-never-returns"));
     let mut urng = Rng::new(0xC21);
     let mut uni = Universe::new(&mut urng, AUTHORS);
     for a in 0..AUTHORS {
@@ -340,6 +401,21 @@ fn main() {
     for _ in 0..n {
         let cfg = gen_config(&mut rng, &caps);
         emit(&mut out, &uni, &cfg);
+    }
+    // select! fairness: where both arms of the Sync-state select! were ready, the receive arm must
+    // get its share (tokio picks the first arm to poll at random); a starved receive arm turns
+    // every "may deadlock" configuration into a certain deadlock
+    let (both, recv) = *FAIR.lock().unwrap();
+    out.extra.insert("select_points_both_arms_ready".into(), both.into());
+    out.extra.insert("receive_arm_chosen".into(), recv.into());
+    if both >= 200 && (recv * 5 < both || recv * 5 > both * 4) {
+        out.oracle_fail(
+            out.cases.saturating_sub(1),
+            "select-arm-starved",
+            &format!("at {both} select points with both arms ready the receive arm ran {recv} times (expected about half)"),
+            "#1:0.40.0_0.0.40:0 c=1 A=40 B=40 | (aggregate over the run)",
+            "",
+        );
     }
     out.finish(
         "channel capacity in {0,1,2,3,4,8,64,512} x 0-40 operations per side in 0-3 author batches each (a third of the cases sized around the capacity boundary), either session polled first. non-trivial = capacity 0, or both sides have more Sync-phase messages (operations + Done) than the capacity",
